@@ -212,15 +212,49 @@ def run(ck: Check, prog: Program) -> None:
     cfg2 = CFG(onr, prog)
     p2: List[Tuple[str, str, int, str]] = []
     miss_nodes = []
+    from ..flow import Flow as _FlowM
+    flm = _FlowM(cfg2)
+
+    def is_table_lookup(e: ast.AST) -> bool:
+        return isinstance(e, ast.Call) and isinstance(e.func, ast.Attribute) and e.func.attr == 'get' and \
+            (dotted(e.func.value) or '').startswith('self.') and len(e.args) >= 1 and dotted(e.args[0]) == 'endpoint'
+    miss_vars = set()
+    from ..util import CondKind as _CK
     for c in cfg2.nodes:
-        if c.kind == 'cond':
+        if c.kind != 'cond':
+            continue
+        e_, neg_ = c.ast, False
+        while isinstance(e_, ast.UnaryOp) and isinstance(e_.op, ast.Not):
+            e_, neg_ = e_.operand, not neg_
+        tested = None
+        if isinstance(e_, ast.Compare) and len(e_.ops) == 1 and isinstance(e_.ops[0], (ast.Is, ast.IsNot)):
+            l_, r_ = e_.left, e_.comparators[0]
+            if isinstance(r_, ast.Constant) and r_.value is None:
+                tested = l_
+            elif isinstance(l_, ast.Constant) and l_.value is None:
+                tested = r_
+            if isinstance(e_.ops[0], ast.IsNot):
+                neg_ = not neg_
+        if tested is None:
+            # a local flag holding the test (`found = entry is not None; if not found:`) is looked through by classify_cond
             ckd = classify_cond(prog, onr, c.ast)
-            if ckd.kind == 'is-none' and ckd.subject == 'matches':
-                miss_nodes.append((c, ckd))
+            if ckd.kind == 'is-none' and ckd.subject:
+                try:
+                    tested, neg_ = ast.parse(ckd.subject, mode='eval').body, ckd.negated
+                except SyntaxError:
+                    tested = None
+        if tested is None:
+            continue
+        # the tested value is the endpoint's entry in the table of patches: `self._matches.get(endpoint)`, directly or through locals
+        leaves = [al.expr for al in flm.alts(c, tested)] if isinstance(tested, ast.Name) else []
+        if is_table_lookup(tested) or leaves and all(is_table_lookup(v) for v in leaves):
+            miss_nodes.append((c, _CK('is-none', norm(tested), neg_)))
+            if isinstance(tested, ast.Name):
+                miss_vars.add(tested.id)
     if not miss_nodes:
         raise AnalysisError(f'{onr.qualname}: endpoint-miss test not recognised')
-    if any('matches' in assigned_names(n) and any(n.id in cfg2.reachable(c) for c, _ in miss_nodes) for n in cfg2.stmt_nodes()):
-        raise AnalysisError(f'{onr.qualname}: `matches` is reassigned after the endpoint-miss test')
+    if any(miss_vars & set(assigned_names(n)) and any(n.id in cfg2.reachable(c) for c, _ in miss_nodes) for n in cfg2.stmt_nodes()):
+        raise AnalysisError(f'{onr.qualname}: the looked-up entry is reassigned after the endpoint-miss test')
     miss_label = {c.id: ('F' if k.negated else 'T') for c, k in miss_nodes}
 
     def consistent(miss: bool):
@@ -309,7 +343,10 @@ def run(ck: Check, prog: Program) -> None:
             an, ac = apps[0]
             leaves = [al.expr for al in flb.alts(an, ac.args[0])]
             app_ok = bool(leaves) and all(v is body_calls[0] for v in leaves)
-        ok_b = it_ok and app_ok and [norm(a) for a in body_calls[0].args][2:] == [f'{tv}.method', f'{tv}.params', f'{tv}.id']
+        from ..util import bound_args as _ba
+        ba_ = (_ba(mr, body_calls[0]) or {}) if body_calls else {}
+        vals_ = list(ba_.values())
+        ok_b = it_ok and app_ok and len(vals_) >= 5 and [norm(a) for a in vals_[2:5]] == [f'{tv}.method', f'{tv}.params', f'{tv}.id']
     if not ok_b:
         p2.append(('ELEMENTWISE', 'batch is not answered element by element, in order', onr.node.lineno,
                    'a batch must be answered by appending _match_request(endpoint, version, method, params, id) of every element, in order'))
@@ -320,7 +357,8 @@ def run(ck: Check, prog: Program) -> None:
     ok_s = False
     if len(single) == 1:
         sn, sc_ = single[0]
-        a3 = [dotted(a) for a in sc_.args][2:]
+        from ..util import bound_args as _ba2
+        a3 = [dotted(a) for a in list((_ba2(mr, sc_) or {}).values())[2:5]]
         if len(a3) == 3 and all(a3) and [x.rsplit('.', 1)[-1] for x in a3] == ['method', 'params', 'id'] and len({x.rsplit('.', 1)[0] for x in a3}) == 1:
             rv = a3[0].rsplit('.', 1)[0]
             srcs = fl2.alts(sn, ast.Name(id=rv, ctx=ast.Load()))
